@@ -5,8 +5,8 @@
     * every emitter method of `Vt100_Output` (output/vt100.py) as a call `Call` on an output object
       with its two state bits (`_cursor_visible`, `_cursor_shape_changed`): mode switches, cursor
       moves incl. `cursor_goto` / `cursor_down`, cursor shapes, `ask_for_cpr`, `bell`, titles → `vtCall`
-    * `Vt100_Output.set_title`: ESC and BEL (the regenerated list `removed`) are deleted from the
-      title, which is then written RAW inside `ESC ] 2 ; … BEL`                              → `setTitle`
+    * `Vt100_Output.set_title` (as repaired by /repo f7226c7): every C0, DEL and C1 character is
+      deleted from the title, which is then written RAW inside `ESC ] 2 ; … BEL`             → `setTitle`
     * `Renderer.reset` / `Renderer.erase` (renderer.py) as lists of emitter calls      → `rendererReset/Erase`
     * the dumb-terminal prompt `PromptSession._dumb_prompt` (shortcuts/prompt.py): the prompt
       message, the character before the cursor after every text change, and the final CR LF, all
@@ -43,12 +43,11 @@ structure Emit2 where
   resetShape : CText
   titlePre : CText
   titleSuf : CText
-  /-- code points `set_title` deletes from the title -/
-  titleRemoved : List CP
 
 /-- `Vt100_Output.set_title(title)`; `silent` = `self.term in ("linux", "eterm-color")` -/
 def setTitle (G : Emit2) (silent : Bool) (title : CText) : CText :=
-  if silent then [] else G.titlePre ++ title.filter (fun c => !G.titleRemoved.contains c) ++ G.titleSuf
+  if silent then []
+  else G.titlePre ++ title.filter (fun c => !isControl c) ++ G.titleSuf   -- `c < " " or "\x7f" <= c <= "\x9f"`
 
 /-- calls on the output object other than `write` / `write_raw` -/
 inductive Call
@@ -133,11 +132,10 @@ def rendererErase (f : RFlags) (x y : Nat) (leaveAlt : Bool) : List Call × RFla
 /-- `fragment_list_to_text(fragments)`: marked fragments are left out -/
 def fragListToText (frs : List Frag) : CText := (frs.filter fun f => !isZwe f.1).flatMap (·.2)
 
-/-- how `_dumb_prompt` prepares text for the writer.  `maps = false`: the text as it is (the code as
-    of this snapshot); `maps = true`: control characters in the notation of `Char.display_mappings`,
-    newlines kept (proposed fix `C10-dumb-prompt-controls`); regenerated probe `Gen.C10.dumbPromptMaps`. -/
-def dumbDisplay (maps : Bool) (m : Table) (t : CText) : CText :=
-  if maps then t.flatMap fun c => if c = LF then [c] else (lookup m [c]).getD [c] else t
+/-- the local `display(text)` of `_dumb_prompt` (since /repo 16862de): control characters in the
+    notation of `Char.display_mappings`, newlines kept -/
+def dumbDisplay (m : Table) (t : CText) : CText :=
+  t.flatMap fun c => if c = LF then [c] else (lookup m [c]).getD [c]
 
 inductive DumbEv
   | start (message : List Frag)            -- entering `_dumb_prompt`
@@ -149,9 +147,9 @@ deriving Repr
 def lastChar (t : CText) : CText := t.drop (t.length - 1)
 
 /-- what one event of the dumb prompt appends to the buffer of the output (each is followed by `flush()`) -/
-def dumbStep (maps : Bool) (m : Table) : DumbEv → CText
-  | .start msg => safeWrite (dumbDisplay maps m (fragListToText msg))
-  | .changed tb => safeWrite (dumbDisplay maps m (lastChar tb))
+def dumbStep (m : Table) : DumbEv → CText
+  | .start msg => safeWrite (dumbDisplay m (fragListToText msg))
+  | .changed tb => safeWrite (dumbDisplay m (lastChar tb))
   | .finish => safeWrite [CR, LF]
 
 /-! ### `patch_stdout` -/
